@@ -33,6 +33,7 @@ fn main() {
             Some("probe") => ReplaySpec::Probe { name: v["probe"].as_str().expect("probe").to_owned() },
             Some("tape") => ReplaySpec::Tape { phase: v["phase"].as_str().expect("phase").to_owned(), tape: hex::decode(v["tape"].as_str().expect("tape")).expect("hex tape") },
             Some("index") => ReplaySpec::Index { phase: v["phase"].as_str().expect("phase").to_owned(), index: v["index"].as_u64().expect("index") },
+            Some("fuzz") => ReplaySpec::Fuzz { target: format!("fuzz:{}", v["target"].as_str().expect("target")), input: hex::decode(v["input_hex"].as_str().expect("input_hex")).expect("hex input") },
             _ => usage(),
         };
         let tier = if v.get("tier").and_then(|t| t.as_str()) == Some("thorough") { Tier::Thorough } else { Tier::Quick };
